@@ -409,7 +409,7 @@ func GenRPlan(r *core.Rng, tilt int) *RPlan {
 		lo := r.U32() >> 1
 		diff := uint32(r.Range(1<<24, 1<<31-1))
 		if r.Chance(1, 3) {
-			diff = uint32(core.Pick(r, 1<<24, 1<<24+1, 1<<25, 1<<30, 1<<31-1))
+			diff = uint32(core.Pick(r, 1<<24, 1<<24+1, 1<<25, 1<<30, 1<<31-1, 1<<31, 1<<31, 1<<31+1, 3<<30)) // (exactly 2^31: the distance whose negation overflows 32 bits)
 		}
 		if uint64(lo)+uint64(diff) > 1<<32-1 {
 			lo = 5
